@@ -219,13 +219,25 @@ func propFaults(t *rapid.T) {
 	if fault == 4 || fault == 5 {
 		px.CutAfter(int64(cutFrac)*70 + 1) // the transcript (handshake with caches + requests) is about 75 KB
 	}
-	// the exchange: requests run concurrently
+	// the exchange: requests run concurrently - after the first one. Several processes dialling
+	// the same node at the same moment can leave A with the connection B turns down and B with the
+	// one A turns down: the connection comes up and is lost again at once, the observers that
+	// were quick enough are (rightly) told so, and this case's fault finds their relations gone.
+	// That is a property of simultaneous dials, not of what is generated here, so one request
+	// establishes the connection and the others follow.
 	var wg sync.WaitGroup
-	for _, o := range observers {
+	firstDone := make(chan struct{})
+	for oi, o := range observers {
 		wg.Add(1)
-		go func(first *obs) {
+		go func(oi int, first *obs) {
 			defer wg.Done()
-			for _, o := range append([]*obs{first}, first.more...) {
+			if oi > 0 {
+				<-firstDone
+			}
+			for ri, o := range append([]*obs{first}, first.more...) {
+				if oi == 0 && ri == 1 {
+					close(firstDone)
+				}
 				id := idOf(o.kind)
 				var rerr error
 				e := kit.InProc(s.a, first.pid, func(a *kit.Actor) {
@@ -257,11 +269,15 @@ func propFaults(t *rapid.T) {
 				o.err, o.done = rerr, true
 				mu.Unlock()
 			}
-		}(o)
+			if oi == 0 && len(first.more) == 0 {
+				close(firstDone)
+			}
+		}(oi, o)
 	}
 	var callErr error
 	callReturned := make(chan time.Duration, 1)
 	if withCall {
+		<-firstDone // (not a second dial next to the first request's)
 		caller, err := s.a.Spawn(kit.Factory(&kit.ActorConfig{Label: "caller", Probe: probe, Quiet: true}), gen.ProcessOptions{})
 		if err == nil {
 			cleanup = append(cleanup, caller)
